@@ -34,4 +34,9 @@ PROPS = {
         trusted=["assumed contract of the parent allocation as seen from a view: _perform_read returns mem[a:a+n], _perform_write stores exactly data at a (the parent's own methods are verified to issue exactly that one controller read/write); MachineController.read/write/sdram_free are external (C07)",
                  "a view and its parent are modelled as separate records (no aliasing): a MemoryIO used as its own view is covered by the bounded layer on real objects"],
     ),
+    "C04": dict(
+        level="proof",
+        specs=["specs.c04_minimise"],
+        bounded=["bounded.c04_tables"],
+    ),
 }
